@@ -12,6 +12,7 @@ BOUNDS = {
              'SelectN (n absolute 1..3 and fractional 0.5/0.34, asc/desc, all_or_none, filter_selected with a symbolic prior selection), StatTotalReturn and '
              'SetStat (lookback 1d/2d, lag 0/1d), SelectMomentum; name/type/status filters (SelectRegex, SelectTypes, SelectActive, ResolveOnTheRun) on enumerated '
              'configurations',
+    'added': 'SelectTypes on a nested tree (own children only), with and without a prior selection',
     'thorough': '4 tickers x 5 dates',
 }
 ASSUMPTIONS = ['prices/stats in [-10, 1000]; ties in the ranking statistic allowed (either order accepted)']
